@@ -9,7 +9,7 @@ from vlib import core, gen
 PROP = "C11"
 META = {
     "technique": "Coq proof: inductive invariants over all schedules of the readMore wake-up protocol (reader / event loop / peer close / local close / session close / deadline timer with an abstract clock), stability of an enabled wake-up, Flush's retry bound as a total function over every queue behaviour, AcceptStream/initProtocol state machines; tie: timed scenarios on real session pairs, outcome set computed from the model by exhaustive interleaving",
-    "level_text": "PARTIAL. Proved for every schedule: C11_no_lost_notify, C11_wake_or_helper (a parked reader whose releasing event happened has a ready select branch or the thread that readies it is at that step), C11_wake_stable (a ready branch stays ready until taken), C11_partial_timeout_not_early / C11_partial_timer_sound (under the explicit assumption atomic_timer: a timer value reaches its channel in the same step as the expiry; the FULL statement is refuted by the two-step expiry, C11_timeout_not_early_refuted, and reproduced on the real code: a stale tick makes the next Read time out at once), C11_enough, C11_flush_bounded (<= c_flushRetryBound rounds whatever the queue does), C11_session_waiters. Observed on the real code (not proved): every scenario's call returned within 4 s of its releasing event with the right error class and no timeout was early.",
+    "level_text": "PARTIAL. Proved for every schedule: C11_no_lost_notify, C11_wake_or_helper (a parked reader whose releasing event happened has a ready select branch or the thread that readies it is at that step), C11_wake_stable (a ready branch stays ready until taken), C11_timeout_not_early / C11_timer_sound / C11_wake_or_helper_deadline (over every schedule INCLUDING the runtime's two-step timer expiry FireA/FireB; the statement was refuted while readMore re-armed one shared timer - stale tick, reproduced on the real code - and is a theorem again since readMore uses a timer of its own per wait; regression: C11_regression_stale_tick and the scenario deadline-race), C11_enough, C11_flush_bounded (<= c_flushRetryBound rounds whatever the queue does), C11_session_waiters. Observed on the real code (not proved): every scenario's call returned within 4 s of its releasing event with the right error class and no timeout was early.",
     "level_note": "Outside the model (Go runtime / kernel): that an enabled goroutine is scheduled, timer accuracy, epoll delivery to the single dispatcher goroutine. One full statement is REFUTED on the faithful model and reproduced on the real code: C11_wakeup_never_blocks (the unbounded `s.sendCh <- ...` of wakeUpPeer/hotRestart blocks Flush for ever once sendCh is full behind a peer that stopped consuming; partial: blocks only then, C11_stuck_until_peer_resumes) (C11_close_releases - a read parked inside OnData is released by a Stream.Close that was deferred because a callback is in progress - was refuted before the repair of stream.go Close and is now proved; regression scenarios ondata-deferred-close-*; the stream state machine has the four states of the source: opened / closed / halfClosed by the peer / localHalfClosed by a deferred Close, with readMore's error-class rule). ASSUMPTIONS: user callbacks (OnShutdown, OnNewStream) return; one reader per stream, deadlines set by the reading goroutine between calls.",
 }
 
@@ -175,7 +175,7 @@ def check(run):
         "an enabled goroutine is eventually scheduled; timers fire close to their time; epoll delivers to the dispatcher goroutine (Go runtime / kernel; observed, not proved)",
         "the send hand-off is modelled with one fast-path thread; hotRestart's slow-path send is the same statement as wakeUpPeer's",
         "user callbacks (ListenCallback.OnNewStream / OnShutdown, StreamCallbacks) return: the single dispatcher goroutine of the process runs them inline",
-        "atomic_timer (only for C11_partial_timeout_not_early / _timer_sound / _wake_or_helper_deadline): the Go runtime puts a timer's value into its channel in the same step in which the timer expires, so that readMore's `if !timer.Stop() { drain }` is exact; FALSE for channel timers under asynctimerchan=1 (go.mod `go 1.20`), see C11_timeout_not_early_refuted",
+        "the timer model: expiry in one step (Fire) or two (FireA: expired, Stop() reports false / FireB: the value reaches the channel); each wait has a timer and a channel of its own",
         "one reader per stream; SetReadDeadline is called by the reading goroutine between two calls (a deadline set while a Read is parked does not re-arm its timer)",
         "callback mode is modelled only as far as the deferred Stream.Close (state marked half-closed without notification) is concerned",
     ]
